@@ -211,6 +211,14 @@ func runCheck(opts checkOpts) int {
 			fmt.Println("bipverif:", err)
 			toolErr = true
 		}
+		if prop == "C14" || prop == "C09" || prop == "C01" || prop == "C16" {
+			er, err := runEngineSelftest()
+			p.engineTest = er
+			if err != nil {
+				fmt.Println("bipverif:", err)
+				toolErr = true
+			}
+		}
 		bn, err := p.runBenign(opts)
 		p.benign = bn
 		if err != nil {
